@@ -301,6 +301,7 @@ func (f *fNatsServer) handler(msg *nats.Msg) {
 		return
 	}
 
+	verifYield("natsserver.enqueue", verifSubjectID(msg.Reply))
 	f.workC <- &frameWrapper{frameBytes: msg.Data, reply: msg.Reply, ephemeralProperties: ephemeralProperties}
 }
 
@@ -308,10 +309,12 @@ func (f *fNatsServer) handler(msg *nats.Msg) {
 // channel and processes them.
 func (f *fNatsServer) worker() {
 	for frame := range f.workC {
+		verifYield("natsserver.dequeue", verifSubjectID(frame.reply))
 		f.onRequestStarted(frame.ephemeralProperties)
 		if err := f.processFrame(frame); err != nil {
 			logger().WithError(err).Error("frugal: error processing request")
 		}
+		verifYield("natsserver.replied", verifSubjectID(frame.reply))
 		f.onRequestFinished(frame.ephemeralProperties)
 	}
 }
